@@ -20,8 +20,10 @@ theorem stepIter_sinv {sh sh' : Shared} {t : Tid} {it it' : Iter}
     · cases h
     · simp only [Option.some.injEq, Prod.mk.injEq] at h
       obtain ⟨rfl, rfl⟩ := h
-      exact ⟨⟨hs.cache_eq, hs.pos_le, hs.len_ok, hs.none_len, hs.compl_none⟩, ⟨rfl, Nat.le_refl _, id, id, id⟩⟩
+      exact ⟨⟨hs.cache_eq, hs.pos_le, hs.len_ok, hs.none_len, hs.compl_none, hs.noraise⟩, ⟨rfl, Nat.le_refl _, id, id, id⟩⟩
   · -- l138
+    rw [step138_eq hs.noraise] at h
+    unfold step138ok at h
     split at h
     · rename_i x hx
       simp only [Option.some.injEq, Prod.mk.injEq] at h
@@ -30,7 +32,7 @@ theorem stepIter_sinv {sh sh' : Shared} {t : Tid} {it it' : Iter}
         by_cases hc : sh.genPos < sh.src.length
         · exact hc
         · rw [List.getElem?_eq_none (by omega)] at hx; cases hx
-      refine ⟨⟨?_, ?_, ?_, hs.none_len, hs.compl_none⟩, ⟨rfl, by simp, ?_, id, id⟩⟩
+      refine ⟨⟨?_, ?_, ?_, hs.none_len, hs.compl_none, hs.noraise⟩, ⟨rfl, by simp, ?_, id, id⟩⟩
       · simp only []
         rw [hs.cache_eq, take_snoc hx]
       · simp only []; omega
@@ -47,7 +49,7 @@ theorem stepIter_sinv {sh sh' : Shared} {t : Tid} {it it' : Iter}
         · rw [List.getElem?_eq_getElem hc] at hx; cases hx
         · omega
       have heq : sh.genPos = sh.src.length := by have := hs.pos_le; omega
-      refine ⟨⟨hs.cache_eq, hs.pos_le, ?_, ?_, hs.compl_none⟩, ⟨rfl, Nat.le_refl _, ?_, id, id⟩⟩
+      refine ⟨⟨hs.cache_eq, hs.pos_le, ?_, ?_, hs.compl_none, hs.noraise⟩, ⟨rfl, Nat.le_refl _, ?_, id, id⟩⟩
       · intro n hn
         simp only [Option.some.injEq] at hn
         simp only []
@@ -60,7 +62,7 @@ theorem stepIter_sinv {sh sh' : Shared} {t : Tid} {it it' : Iter}
     simp only [Option.some.injEq, Prod.mk.injEq] at h
     obtain ⟨rfl, rfl⟩ := h
     have he : sh.len = some sh.src.length := hl.2
-    refine ⟨⟨hs.cache_eq, hs.pos_le, hs.len_ok, ?_, ?_⟩, ⟨rfl, Nat.le_refl _, id, id, fun _ => rfl⟩⟩
+    refine ⟨⟨hs.cache_eq, hs.pos_le, hs.len_ok, ?_, ?_, hs.noraise⟩, ⟨rfl, Nat.le_refl _, id, id, fun _ => rfl⟩⟩
     · intro _; simp only []; rw [he]; simp
     · intro _; rfl
   · -- l141
@@ -68,11 +70,11 @@ theorem stepIter_sinv {sh sh' : Shared} {t : Tid} {it it' : Iter}
     rw [hpc] at hl
     simp only [Option.some.injEq, Prod.mk.injEq] at h
     obtain ⟨rfl, rfl⟩ := h
-    exact ⟨⟨hs.cache_eq, hs.pos_le, hs.len_ok, hs.none_len, fun _ => hl.2.2⟩, ⟨rfl, Nat.le_refl _, id, fun _ => rfl, id⟩⟩
+    exact ⟨⟨hs.cache_eq, hs.pos_le, hs.len_ok, hs.none_len, fun _ => hl.2.2, hs.noraise⟩, ⟨rfl, Nat.le_refl _, id, fun _ => rfl, id⟩⟩
   · -- l144
     simp only [Option.some.injEq, Prod.mk.injEq] at h
     obtain ⟨rfl, rfl⟩ := h
-    exact ⟨⟨hs.cache_eq, hs.pos_le, hs.len_ok, hs.none_len, hs.compl_none⟩, ⟨rfl, Nat.le_refl _, id, id, id⟩⟩
+    exact ⟨⟨hs.cache_eq, hs.pos_le, hs.len_ok, hs.none_len, hs.compl_none, hs.noraise⟩, ⟨rfl, Nat.le_refl _, id, id, id⟩⟩
   · cases h
 
 /-- the lock changes hands only through `acquire()` on a free lock and `release()` by the owner -/
@@ -110,10 +112,23 @@ theorem stepIter_lock {sh sh' : Shared} {t : Tid} {it it' : Iter}
     refine ⟨?_, fun _ _ => Iff.rfl⟩
     split <;> simp_all [PC.inCrit]
   · -- l138
-    split at h <;> (
-      simp only [Option.some.injEq, Prod.mk.injEq] at h
+    unfold step138 at h
+    split at h
+    · simp only [Option.some.injEq, Prod.mk.injEq] at h
       obtain ⟨rfl, rfl⟩ := h
-      exact ⟨by simp [PC.inCrit, hown], fun _ _ => Iff.rfl⟩)
+      exact ⟨by simp [PC.inCrit, hown], fun _ _ => Iff.rfl⟩
+    · split at h
+      · -- the generator raises: the `finally` releases
+        simp only [Option.some.injEq, Prod.mk.injEq] at h
+        obtain ⟨rfl, rfl⟩ := h
+        refine ⟨by simp [crashWith, PC.inCrit], fun t' ht' => ?_⟩
+        simp only [hown, Option.some.injEq, reduceCtorEq, false_iff]
+        exact fun e => ht' e.symm
+      · unfold step138ok at h
+        split at h <;> (
+          simp only [Option.some.injEq, Prod.mk.injEq] at h
+          obtain ⟨rfl, rfl⟩ := h
+          exact ⟨by simp [PC.inCrit, hown], fun _ _ => Iff.rfl⟩)
   · -- l144
     simp only [Option.some.injEq, Prod.mk.injEq] at h
     obtain ⟨rfl, rfl⟩ := h
@@ -291,6 +306,8 @@ theorem stepIter_linv {sh sh' : Shared} {t : Tid} {it it' : Iter}
       omega
   · -- l138
     obtain ⟨hy, hij, hj, hg⟩ := hl
+    rw [step138_eq hs.noraise] at h
+    unfold step138ok at h
     split at h
     · simp only [Option.some.injEq, Prod.mk.injEq] at h
       obtain ⟨rfl, rfl⟩ := h
